@@ -169,7 +169,56 @@ def run_bodies(acc, job):
             acc.sample('bodies', _short(body).decode('latin-1'))
 
 
+def run_charsets(acc):
+    """The reply declares a character set that is not ASCII-compatible: the
+    body that counts is the TEXT the server sent."""
+    enfs = {ct: enforcer(ct) for ct in ('application/x-www-form-urlencoded',
+                                        'application/json')}
+    for e in enfs.values():
+        world.set_rules(e, {'h': 'http://srv.test/check',
+                            's': 'https://srv.test/check',
+                            'nh': 'not http://srv.test/check'})
+    cur = {}
+
+    def responder(req, kw):
+        return 200, cur['body'], cur['headers']
+    texts = ['True', '"True"', '""True"', 'true', 'Tru', '', ' True',
+             'True\n', "'True'"]
+    with world.HttpStub(responder) as stub:
+        for charset in ('utf-16', 'utf-16-le', 'utf-32', 'cp037', 'cp500',
+                        'utf-8', 'latin-1'):
+            replies = [(t, t.encode(charset)) for t in texts]
+            # the plain ASCII bytes under that declaration: whatever they
+            # decode to is the text
+            for raw in (b'True', b'"True"'):
+                replies.append((raw.decode(charset, 'replace'), raw))
+            for text, body in replies:
+                exp = text.strip('"') == 'True'
+                cur.update(body=body, headers={
+                    'Content-Type': 'text/plain; charset=%s' % charset})
+                for ct, enf in enfs.items():
+                    for name, want in (('h', exp), ('s', exp),
+                                       ('nh', not exp)):
+                        acc.ev()
+                        got = world.decide(enf, name, {}, {'roles': []})
+                        acc.case('bodies', True)
+                        if got != ('ok', want):
+                            acc.violation(
+                                'body|charset|%s' % (
+                                    'allows' if (got == ('ok', True)) ==
+                                    (name != 'nh') else 'denies',),
+                                'reply text %r sent as %s (%r) to %s check '
+                                'gives %r, expected %r' %
+                                (text, charset, _short(body), name, got,
+                                 want),
+                                {'text': text, 'charset': charset,
+                                 'rule': name, 'content_type': ct}, want,
+                                got, 'bodies')
+                acc.outcome('charset-%s' % ('allow' if exp else 'deny'))
+
+
 def run_faults(acc, job):
+    run_charsets(acc)
     import requests.exceptions as rx
     faults = [rx.Timeout, rx.ConnectTimeout, rx.ReadTimeout,
               rx.ConnectionError, rx.SSLError, rx.ChunkedEncodingError]
